@@ -55,7 +55,7 @@ def cwrLoop (c : CipherWr) : List (Bytes × Int) → Bytes → List String → B
     match c.write p n with
     | (none, _, _) => (acc, ("PANIC" :: res).reverse)
     | (some sent, c', _) =>
-      if n < p.length then (acc ++ sent, (s!"{n}:fail" :: res).reverse)
+      if n < p.length then (acc ++ sent, (s!"{n}:dfail" :: res).reverse)
       else cwrLoop c' rest (acc ++ sent) (s!"{n}:nil" :: res)
 
 def c02cwr (a : List String) (obs : String) : String × String :=
